@@ -19,7 +19,7 @@ func init() {
 	Register("C20", &Info{
 		Run:   runC20,
 		Quick: 8000, Thor: 300000,
-		Rule: "a world = a seed connection that obtains a genuine TLS 1.2 or TLS 1.3 session from the repository server (captured through a recording ClientSessionCache), then a second UConn (parrots with and without session_ticket / pre_shared_key extensions) on which a sequence of 0-5 session-API calls drawn from {SetClientRandom and SetSNI (documented edits of a built hello), SetSessionCache, BuildHandshakeStateWithoutSession, SetSessionTicketExtension (session of the seed connection), SetSessionState (the seed's or one forged with MakeClientSessionState), SetPskExtension (extension initialised by the harness from the seed's resumption state with an independently derived early secret and binder key), BuildHandshakeState} is applied in order, followed by Handshake; all sequences of length <= 3 over the eight operations are enumerated by run index (585 of every 800 runs), longer ones are drawn; a small reference model of the documented protocol classifies each sequence as allowed / forbidden / unspecified; oracle: allowed => no panic, Handshake completes, the injected ticket / PSK identity appears on the wire byte for byte and the server resumes; forbidden (setter without a cache, setter after BuildHandshakeState, setter for an extension the spec lacks) => an error or a panic carrying a message, never a runtime error; unspecified => only 'no runtime-error panic'; non-trivial = the sequence contains a setter; distinct = (parrot, version, sequence)",
+		Rule: "a world = a seed connection that obtains a genuine TLS 1.2 or TLS 1.3 session from the repository server (captured through a recording ClientSessionCache), then a second UConn (parrots with and without session_ticket / pre_shared_key extensions) on which a sequence of 0-5 session-API calls drawn from {SetClientRandom and SetSNI (documented edits of a built hello), SetSessionCache, BuildHandshakeStateWithoutSession, SetSessionTicketExtension (session of the seed connection, or in a quarter of the worlds the documented sessionless 'fake ticket'), SetSessionState (the seed's, one forged with MakeClientSessionState, or nil), the UConn's cache empty or already holding the seed session, SetPskExtension (extension initialised by the harness from the seed's resumption state with an independently derived early secret and binder key), BuildHandshakeState} is applied in order, followed by Handshake; all sequences of length <= 3 over the eight operations are enumerated by run index (585 of every 800 runs), longer ones are drawn; a small reference model of the documented protocol classifies each sequence as allowed / forbidden / unspecified; oracle: allowed => no panic, Handshake completes, the injected ticket / PSK identity appears on the wire byte for byte and the server resumes; forbidden (setter without a cache, setter after BuildHandshakeState, setter for an extension the spec lacks) => an error or a panic carrying a message, never a runtime error; unspecified => only 'no runtime-error panic'; non-trivial = the sequence contains a setter; distinct = (parrot, version, sequence)",
 		Assumptions: []string{"the reference model is my reading of the doc comments on UConn.BuildHandshakeState, BuildHandshakeStateWithoutSession, SetSessionTicketExtension, SetPskExtension, SetSessionState and Config.PreferSkipResumptionOnNilExtension; it is deliberately narrow about what it calls 'allowed': cache set first, at most one setter, setter before any BuildHandshakeState (BuildHandshakeStateWithoutSession may precede it)",
 			"TLS 1.3 early secret and binder key for the injected PSK are derived by the harness (RFC 8446 section 7.1) from ClientSessionState.MasterSecret()"},
 		Real: []string{"utls client session controller and handshake from /repo", "utls server (real tickets)"},
@@ -152,6 +152,14 @@ func runC20(c *Ctx) {
 		}
 	}
 	forged := ch.Bool(40, "forged")
+	// sessionless injection (the documented "fake ticket": an initialized extension carrying ticket
+	// bytes but no session; SetSessionState(nil) for an empty one), and a session cache that already
+	// holds a session for this server from an earlier connection: what was given goes out as given,
+	// nothing from the cache is mixed in
+	fakeTicket := ch.Bool(25, "sessionless-ticket")
+	prefilled := ch.Bool(50, "prefilled-cache")
+	fakeBytes := make([]byte, ch.Range(1, 200, "fake-ticket-len"))
+	ch.Bytes(fakeBytes, "fake-ticket")
 	w := c.NewWorld(simrt.Config{})
 	scfg := &tls.Config{Certificates: []tls.Certificate{Cert("ecdsa").U}, MaxVersion: ver}
 	seedCache := &recCache{m: map[string]*tls.ClientSessionState{}}
@@ -234,6 +242,9 @@ func runC20(c *Ctx) {
 	failedAt := -1
 	var wantTicket, wantPSK []byte
 	newCache := tls.NewLRUClientSessionCache(4)
+	if prefilled {
+		newCache.Put("example.test", css)
+	}
 	ccfg := &tls.Config{ServerName: "example.test", RootCAs: Roots(), OmitEmptyPsk: true, MaxVersion: ver}
 	sp := &ConnSpec{Name: "target", ID: idi.ID, CCfg: ccfg, Peer: PeerUTLS, SCfg: scfg, Payload: [][]byte{[]byte("ping")}}
 	sp.Prep = func(u *tls.UConn) (ret error) {
@@ -254,9 +265,19 @@ func runC20(c *Ctx) {
 				case 'B':
 					opErr = u.BuildHandshakeState()
 				case 'T':
+					if fakeTicket {
+						wantTicket = fakeBytes
+						opErr = u.SetSessionTicketExtension(&tls.SessionTicketExtension{Ticket: append([]byte(nil), fakeBytes...), Initialized: true})
+						break
+					}
 					wantTicket = ticket
 					opErr = u.SetSessionTicketExtension(&tls.SessionTicketExtension{Session: sstate, Ticket: ticket, Initialized: true})
 				case 'S':
+					if fakeTicket {
+						wantTicket = []byte{}
+						opErr = u.SetSessionState(nil)
+						break
+					}
 					st := css
 					if forged && ver == tls.VersionTLS12 {
 						st = tls.MakeClientSessionState(ticket, css.Vers(), css.CipherSuite(), css.MasterSecret(), css.ServerCertificates(), css.VerifiedChains())
@@ -312,6 +333,7 @@ func runC20(c *Ctx) {
 	seqS := string(seq)
 	c.R.Class = fmt.Sprintf("%s v=%x seq=%s forged=%v model=%s", idi.Name, ver, seqS, forged, class)
 	c.R.NonTrivial = setters > 0
+	c.R.Class += fmt.Sprintf(" sessionless=%v prefilled=%v", fakeTicket, prefilled)
 	if c.R.Violation != nil {
 		return
 	}
@@ -345,7 +367,14 @@ func runC20(c *Ctx) {
 					return
 				}
 			}
-			if !o.CState.DidResume || !o.S.DidResume {
+			if fakeTicket && usedSetter != 'P' {
+				// nothing but what was given: no identity from the cache next to it, no resumption
+				if len(h.PSKIdentities) > 0 || o.CState.DidResume {
+					c.Violate("cached-session-mixed-into-sessionless-injection", "%s: %d PSK identities on the wire, DidResume=%v (cache prefilled=%v)", detail, len(h.PSKIdentities), o.CState.DidResume, prefilled)
+					return
+				}
+				c.Probe("sessionless-injection-as-given")
+			} else if !o.CState.DidResume || !o.S.DidResume {
 				c.Violate("injected-session-not-resumed setter="+string(rune0(usedSetter)), "%s: client DidResume=%v server DidResume=%v", detail, o.CState.DidResume, o.S.DidResume)
 				return
 			}
